@@ -4,7 +4,7 @@ from .c01 import sig_certificate
 
 PROP_FILE = 'Properties/C06.v'
 THEOREMS = ['C06_block_comment_text', 'C06_line_comment_text', 'C06_comment_total', 'C06_markup_comment_in_place',
-            'C06_flow_keeps_comments_in_place', 'C06_list_keeps_comments_in_place']
+            'C06_flow_keeps_comments_in_place', 'C06_list_keeps_comments_in_place', 'C06_no_comment_lost_or_moved_in_scope']
 
 
 def run(tier, seed, replay=None):
